@@ -8,7 +8,9 @@
  4 oracle      independent DOM of the same XML (libxml2 tree API): every reported XPath selects exactly one element,
                line / columns inside that element's text;  fault injection at every token position of every block of
                the seed models (seven fault kinds x layouts): >= 1 error inside the faulted block, all errors inside it
-               for non-select labels, exact range for an undeclared identifier.  The queries of the <queries> element are
+               for non-select labels, exact range for an undeclared identifier.  Layouts include banner / box comments (lines
+               ending in `*`); one rendering of the XML layer puts elements unknown to the reader between indexed siblings.
+               The queries of the <queries> element are
                blocks too: after the model is read every stored query goes through PropertyBuilder::parse(formula,
                location, options), the way a verifier runs them, and its diagnostics are judged like all others
 """
@@ -50,7 +52,9 @@ NEWLINES = ["\n", "\n\n", "\n\n\n", "\r\n", "\r\n\r\n", "\n\r\n", "\r\n\n", "\r\
 CONTIN = ["\\\n", "\\ \n", "\\\t \n", "\\\r\n", "\\ x", "\\\\\n"]
 STRINGS = ['"abc"', '"a b"', '""', '"', '"a\nb"', '"x\n\ny"', '"//"', '"/*"', '"\r\n"', '"a\\"', '"\\\n"']
 COMMENTS = ["/* c */", "/**/", "/* a\nb */", "/* a\r\nb\n\n*/", "/* * / ** /*/", "// c\n", "// c\\\n", "//\n", "// x\r\n", "/* EXPECT:foo */",
-            "/* EXPECT:foo*/ still */", "/*/ x */", "/* \"q */", "//\"\n", "/* // */"]
+            "/* EXPECT:foo*/ still */", "/*/ x */", "/* \"q */", "//\"\n", "/* // */",
+            # banner / box styles: a star (or a row of stars) directly in front of a line end inside the comment
+            "/*******\n * box *\n *******/", "/* a *\n b */", "/**\n*/", "/* a **\r\n * b\n\n **/", "/* EXPECT:foo *\n*/", "/*\n*\n*/", "/* E*\n E */"]
 DECLS = ["int a = 1;", "const int N = 3;", "bool b;", "int f(int x) { return x + 1; }", "typedef int[0,3] t_t;", "clock c;", "chan d;",
          "int arr[3] = {1,2,3};", "struct { int u; } s;"]
 PARTS_FOR_LEX = [1, 1, 1, 1, 2, 3, 12, 13, 9, 11, 6, 5, 10]   # xta_part_t values; S_DECLARATION most often (S_SELECT outside an edge crashes: C01)
@@ -100,7 +104,8 @@ def lex_cases(ctx):
     # fixed corner cases first
     fixed = ["", "\n", "\n\n\nint a;", "int a;\r\n\r\nint b;\r\n", "/* x\n y */ @ b\r\n\r\nc \\ \nd // e\n/* open", "int a; /* EXPECT:foo*/ int @;\n*/ @",
              "\\// not a comment\n@", "a\\/b // c\n@", "int a;\n\n\n@\n", "\r@", "/*\n\n*/@", "//\\\n@", "int a = 1 \\\n + 2;\n@",
-             '"s\nt" @', 'int a; "q\n\n" @ \n@', "@\n@\r\n@\n\n@", "=<\n=>", "1.e5\n@", "A[]*//x\n@", "int x; /* a */ /* b\n */ int y;\n@"]
+             '"s\nt" @', 'int a; "q\n\n" @ \n@', "@\n@\r\n@\n\n@", "=<\n=>", "1.e5\n@", "A[]*//x\n@", "int x; /* a */ /* b\n */ int y;\n@",
+             "/*****\n * a *\n *****/\nint a;\n@", "int a; /* b *\n * c **\n */ @\n@", "/**\r\n*\r\n*/ @"]
     for t in fixed:
         for nx in (1, 0):
             cases.append((nx, 1, t))
@@ -262,14 +267,15 @@ def fault_ops(ctx):
                                 M.xml_layer(x, layer)))
         for layer in M.XML_LAYERS[1:]:
             for entry in ("buffer", "file"):
-                ops.append(({"seed": mi, "what": "layout-only", "layout": "xml-" + layer, "entry": entry}, M.xml_layer(M.render(m), layer)))
+                ops.append(({"seed": mi, "what": "layout-only", "layout": "xml-" + layer, "entry": entry, "queries": True},
+                            M.xml_layer(M.render(m), layer)))
         for bi, blk in enumerate(blocks):
             for li, layout in enumerate(M.LAYOUTS):
                 text0 = M.relayout(blk.text, layout, bi, blk.kind)
                 toks = M.tokenize(text0)
                 for i in range(len(toks) + 1):
                     for ki, kind in enumerate(M.FAULT_KINDS):
-                        if not ctx.thorough and (i + ki + bi + ctx.seed) % len(M.LAYOUTS) != li:
+                        if not ctx.thorough and (i + ki + bi + ctx.seed) % M.ROTATED != li % M.ROTATED:
                             continue
                         for t2, info in M.faults_at(blk, text0, toks, i, kind):
                             d = {"seed": mi, "what": "fault", "kind": kind, "layout": layout, "block": blk.key, "canon": blk.canon,
@@ -283,7 +289,13 @@ def fault_ops(ctx):
                             as_cdata = (len(ops) % 5 == 4) and layout != "crlf" and "\r" not in t2
                             if as_cdata:
                                 d["xml_text"] = "cdata"
-                            ops.append((d, M.render(m, {blk.key: t2}, cdata=(blk.key,) if as_cdata else ())))
+                            x = M.render(m, {blk.key: t2}, cdata=(blk.key,) if as_cdata else ())
+                            # every seventh faulted model carries elements unknown to the reader between its indexed siblings (labels of
+                            # one edge, locations, transitions, templates, queries): the block and its diagnostics keep their element
+                            if len(ops) % 7 == 3:
+                                d["xml_layer"] = "foreign"
+                                x = M.xml_layer(x, "foreign")
+                            ops.append((d, x))
     return ops
 
 
